@@ -13,6 +13,7 @@ from fractions import Fraction as Fr
 
 from .. import gen, symx, stubs, surfunit as su
 from ..symx import ENG, explore, check_sat, SymReal
+import z3
 from ..sem import t4 as t4sem, num as n
 from ..common import Report, run_pool, seed
 from . import deckprop, c05
@@ -38,7 +39,7 @@ def worker(task):
     return deckprop.run_deck(PROP, 'deck%s' % (task,), deck, pre, flags=flags)
 
 
-T4_TYPES = {'PLANEX': 1, 'PLANEY': 1, 'PLANEZ': 1, 'PLANE': 4, 'SPHERE': 4, 'CYLX': 3, 'CYLY': 3, 'CYLZ': 3, 'CYL': 7, 'QUAD': 10}
+T4_TYPES = {'TORUSZ': 6, 'TORUSX': 6, 'PLANEX': 1, 'PLANEY': 1, 'PLANEZ': 1, 'PLANE': 4, 'SPHERE': 4, 'CYLX': 3, 'CYLY': 3, 'CYLZ': 3, 'CYL': 7, 'QUAD': 10}
 
 
 def eq_unit(pair):
@@ -48,10 +49,19 @@ def eq_unit(pair):
     ta, tb = pair
     res = {'obligations': 0, 'discharged': 0, 'paths': 0, 'violations': [], 'inconclusive': [], 'samples': [],
            'distinct': [], 'harness_errors': []}
+    import numpy as np
+    tra = trb = None
+    if ta.endswith('+tr'):
+        ta = tb = ta[:-3]
+        # inclined tori carry a TRANSFORM (translation vector, matrix): both must take part in the comparison
+        tra = (np.array([symx.var('ta%d' % i) for i in range(3)], dtype=object),
+               np.array([symx.var('ma%d' % i) for i in range(9)], dtype=object).reshape(3, 3))
+        trb = (np.array([symx.var('tb%d' % i) for i in range(3)], dtype=object),
+               np.array([symx.var('mb%d' % i) for i in range(9)], dtype=object).reshape(3, 3))
     pa = [symx.var('a%d' % i) for i in range(T4_TYPES[ta])]
     pb = [symx.var('b%d' % i) for i in range(T4_TYPES[tb])]
-    A = SurfaceT4(getattr(T4S, ta), pa)
-    B = SurfaceT4(getattr(T4S, tb), pb, ['other origin'])
+    A = SurfaceT4(getattr(T4S, ta), pa, transform=tra)
+    B = SurfaceT4(getattr(T4S, tb), pb, ['other origin'], transform=trb)
     ENG.reset([])
     paths = explore(lambda: (A == B, hash(A) == hash(B)))
     res['paths'] = len(paths)
@@ -65,22 +75,60 @@ def eq_unit(pair):
         if not equal:
             res['discharged'] += 1
             continue
-        ctx = t4sem.Ctx()
-        fa = t4sem.surf_at(su.surf_from_object(1, A), su.POINT, ctx)
-        fb = t4sem.surf_at(su.surf_from_object(2, B), su.POINT, ctx)
-        r, m = check_sat(p.constraints() + [(fa - fb).z3_cmp('!=')] if n.is_sym(n.sub(fa, fb)) else p.constraints() + [], 10000)
-        d = n.sub(fa, fb)
-        if not n.is_sym(d):
-            ok = (d == 0)
-        else:
-            ok = (r == 'unsat')
+        # equal as surfaces: same type and, under the path condition, every parameter and every entry of the
+        # TRANSFORM equal (then the implicit functions coincide trivially)
+        ok = (A.type_surface == B.type_surface) and len(pa) == len(pb) and ((tra is None) == (trb is None))
+        if ok:
+            pairs = list(zip(pa, pb))
+            if tra is not None:
+                pairs += list(zip(list(tra[0].flat) + list(tra[1].flat), list(trb[0].flat) + list(trb[1].flat)))
+            for x, y in pairs:
+                dd = x - y
+                if dd.c is not None:
+                    if dd.c != 0:
+                        ok = False
+                    continue
+                r, m = check_sat(p.constraints() + [dd.r.z3_cmp('!=')], 10000)
+                if r == 'sat':
+                    ok = False
+                elif r != 'unsat':
+                    ok = None
+                if not ok:
+                    break
+        if ok is None:
+            res['inconclusive'].append('eq %s: solver unknown' % (pair,))
+            continue
         if ok and samehash:
             res['discharged'] += 1
             if not res['samples']:
                 res['samples'].append({'unit': 'SurfaceT4.__eq__ %s' % (pair,), 'path_condition': [str(c) for c in p.pc][:5], 'verdict': 'same surface'})
         else:
-            res['violations'].append({'signature': {'kind': 'eq-unsound', 'types': list(pair)}, 'replay': '-',
-                                      'text': 'SurfaceT4 %s == %s holds on a path where the surfaces differ (or hashes differ)' % pair})
+            from ..common import unit_violation
+            from ..symx import model_value
+            r_, m_ = check_sat(p.constraints() + [z3.Or([(x - y).r.z3_cmp('!=') for x, y in pairs if (x - y).c is None] or [z3.BoolVal(True)])], 10000)
+            v = None
+            if r_ == 'sat':
+                va = [float(model_value(m_, x)) for x in pa]
+                vb = [float(model_value(m_, x)) for x in pb]
+                if tra is not None:
+                    ta_ = [float(model_value(m_, x)) for x in list(tra[0].flat) + list(tra[1].flat)]
+                    tb_ = [float(model_value(m_, x)) for x in list(trb[0].flat) + list(trb[1].flat)]
+                    tr_code = ('import numpy as np\nTA=(np.array(%r),np.array(%r).reshape(3,3))\nTB=(np.array(%r),np.array(%r).reshape(3,3))\n'
+                               % (ta_[:3], ta_[3:], tb_[:3], tb_[3:]))
+                    targ = ', transform=TA', ', transform=TB'
+                else:
+                    tr_code, targ = '', ('', '')
+                code = ('from t4_geom_convert.Kernel.Surface.SurfaceT4 import SurfaceT4\n'
+                        'from t4_geom_convert.Kernel.Surface.ESurfaceTypeT4 import ESurfaceTypeT4 as T\n' + tr_code +
+                        'A=SurfaceT4(T.%s, %r%s)\nB=SurfaceT4(T.%s, %r%s)\n'
+                        'assert not (A == B), "SurfaceT4.__eq__ identifies two different surfaces: %%r / %%r" %% (A, B)\n'
+                        % (ta, va, targ[0], tb, vb, targ[1]))
+                v = unit_violation(PROP, {'kind': 'eq-unsound', 'types': list(pair)},
+                                   'SurfaceT4 %s == %s holds although parameters/TRANSFORM differ' % pair, code)
+            if v:
+                res['violations'].append(v)
+            else:
+                res['inconclusive'].append('eq %s: equality on a path with different parameters (not replayed)' % (pair,))
     return res
 
 
@@ -100,6 +148,7 @@ def tasks_for(tier):
     types = list(T4_TYPES)
     for ta in types:
         out.append(('EQ', (ta, ta)))
+    out.append(('EQ', ('TORUSZ+tr', 'TORUSZ+tr')))
     out.append(('EQ', ('PLANEX', 'PLANEY')))
     out.append(('EQ', ('CYLX', 'CYLY')))
     return out
